@@ -242,7 +242,8 @@ def decompose(fn, qtext, domain):
     merged = []
     for lo, hi, leaf in segs:
         sig = tuple(id(s) for s in leaf)
-        if merged and merged[-1][3] == sig:
+        crosses = lo is not None and lo in (domain[0], domain[1] + 1)
+        if merged and merged[-1][3] == sig and not crosses:
             merged[-1] = (merged[-1][0], hi, leaf, sig)
         else:
             merged.append((lo, hi, leaf, sig))
@@ -306,6 +307,13 @@ def check_writer(repo, res, fname, family, domain, emitted):
             continue
         if outside:
             ok = bool(raises) and not wparts
+            if not ok and wparts:
+                # struct.pack refuses (struct.error) what its format cannot hold: also a refusal
+                for part in wparts[0]:
+                    if part[0] == 'pack' and part[2] and part[2][0] == qtext:
+                        cap = S.INT_FMT.get(norm_fmt(part[1][:2] if part[1].startswith('>') else part[1][:1]))
+                        if cap and ((lo is not None and lo > cap[2]) or (hi is not None and hi < cap[1])):
+                            ok = True
             res.check('C14-R2', key, ok, F, line,
                       '%s: %s %s outside the domain must be refused with an exception, '
                       'found %s' % (fname, qtext, rng, 'raise' if ok else 'a write'),
